@@ -7,6 +7,7 @@ from typing import Dict, List, Optional, Set, Tuple
 from fdlstatic import cfg as cfg_lib
 from fdlstatic.ctx import Ctx, kwarg
 from fdlstatic.model import AnalysisError, FuncInfo, unparse, walk_function, walk_stmts
+from fdlstatic import roles
 from fdlstatic.report import RuleSet
 from fdlstatic.rules import c10, c14
 
@@ -58,14 +59,19 @@ def run(ctx: Ctx, rs: RuleSet, tier: str):
           ref_tables.add(k.value.id)
   if len(ref_tables) < 2:
     raise AnalysisError('Reference converter closure not understood')
-  sections = []  # (cfg node, callee FuncInfo, call)
+  # the statement list of the fiddler: the local that the section helpers'
+  # results are appended to (`<body> += _cst_for_...(...)`)
+  by_target: Dict[str, list] = {}
   for n in g.nodes():
     st = g.stmt[n]
     if isinstance(st, ast.AugAssign) and isinstance(
-        st.value, ast.Call) and unparse(st.target) == 'body':
+        st.op, ast.Add) and isinstance(st.value, ast.Call) and isinstance(
+            st.target, ast.Name):
       q = p.resolve(st.value.func, ff)
-      if q in p.funcs:
-        sections.append((n, p.funcs[q], st.value))
+      if q in p.funcs and q.startswith(CD + '.'):
+        by_target.setdefault(st.target.id, []).append(
+            (n, p.funcs[q], st.value))
+  sections = max(by_target.values(), key=len) if by_target else []
   sections.sort(key=lambda s: s[0])
   # CFG order == statement order here (straight-line); verify
   for (a, _, _), (b, _, _) in zip(sections, sections[1:]):
@@ -175,15 +181,32 @@ def run(ctx: Ctx, rs: RuleSet, tier: str):
   def nodes_with(pred):
     return [n for n in g.nodes() if any(pred(e) for e in cfg_lib.walk_node(g, n))]
 
-  ext_del = nodes_with(lambda e: isinstance(e, ast.Call) and
-                       unparse(e.func) == 'body.extend' and
-                       unparse(e.args[0]) == 'deletes')
-  ext_asg = nodes_with(lambda e: isinstance(e, ast.Call) and
-                       unparse(e.func) == 'body.extend' and
-                       unparse(e.args[0]) == 'assigns')
-  app_uc = nodes_with(lambda e: isinstance(e, ast.Call) and
-                      unparse(e.func) == 'body.append' and
-                      unparse(e.args[0]) == 'update_callable')
+  # roles: <body>.extend(<first group>); <body>.append(<callable update>);
+  # <body>.extend(<second group>) - found by shape, the first extension is the
+  # one that dominates the other
+  ext = []  # (node, receiver, argument)
+  app = []
+  for n in g.nodes():
+    for e in cfg_lib.walk_node(g, n):
+      if isinstance(e, ast.Call) and isinstance(
+          e.func, ast.Attribute) and isinstance(
+              e.func.value, ast.Name) and len(e.args) == 1 and isinstance(
+                  e.args[0], ast.Name):
+        if e.func.attr == 'extend':
+          ext.append((n, e.func.value.id, e.args[0].id))
+        elif e.func.attr == 'append':
+          app.append((n, e.func.value.id, e.args[0].id))
+  D = A = U = BODY = None
+  for n1, r1, x1 in ext:
+    for n2, r2, x2 in ext:
+      if r1 == r2 and x1 != x2 and g.dominated_by(n2, {n1},
+                                                   labels=cfg_lib.NO_EXC):
+        BODY, D, A = r1, x1, x2
+  ext_del = [n for n, r, x in ext if r == BODY and x == D]
+  ext_asg = [n for n, r, x in ext if r == BODY and x == A]
+  app_uc = [n for n, r, x in app if r == BODY]
+  if app_uc:
+    U = [x for n, r, x in app if r == BODY][0]
   ok = bool(ext_del) and bool(ext_asg) and bool(app_uc) and all(
       g.dominated_by(u, set(ext_del), labels=cfg_lib.NO_EXC) for u in app_uc
   ) and all(
@@ -195,16 +218,18 @@ def run(ctx: Ctx, rs: RuleSet, tier: str):
   rs.check(ok, rule, f'{cc.qualname}:emission',
            'body.extend(deletes) -> update_callable -> body.extend(assigns) '
            'for each parent', ctx.loc(cc, cc.node))
-  # classification of operations into the three groups
+  # classification of operations into the two groups
   groups: Dict[str, str] = {}
   for n in walk_function(cc.node):
     if isinstance(n, ast.If):
       names = c10.isinstance_names(n.test) & set(c10.op_classes(ctx))
       if not names:
         continue
-      body_src = ' '.join(unparse(s) for s in n.body)
-      grp = 'deletes' if 'deletes.append' in body_src else (
-          'assigns' if 'assigns.append' in body_src else None)
+      recv = {c.func.value.id for st in n.body for c in ast.walk(st)
+              if isinstance(c, ast.Call) and isinstance(
+                  c.func, ast.Attribute) and c.func.attr == 'append' and
+              isinstance(c.func.value, ast.Name)}
+      grp = 'deletes' if D in recv else ('assigns' if A in recv else None)
       for nm in names:
         if grp:
           groups[nm] = grp
@@ -213,7 +238,8 @@ def run(ctx: Ctx, rs: RuleSet, tier: str):
   rs.check(groups == want, rule, f'{cc.qualname}:groups',
            f'operation groups {groups}', ctx.loc(cc, cc.node))
   ok = any(isinstance(n, ast.If) and 'BuildableFnOrCls' in unparse(n.test) and
-           'update_callable' in ' '.join(unparse(s) for s in n.body)
+           any(isinstance(st, ast.Assign) and unparse(st.targets[0]) == U and
+               'update_callable' in unparse(st.value) for st in n.body)
            for n in walk_function(cc.node))
   rs.check(ok, rule, f'{cc.qualname}:callable',
            'a change of the callable is emitted as update_callable(parent, '
@@ -308,15 +334,24 @@ def run(ctx: Ctx, rs: RuleSet, tier: str):
   rule = 'WMC.generated-names'
   rs.declare(rule, 'emitted variable names come from the namespace '
              'allocator', 2)
+  # the namespace: a Namespace() made here or the import manager's
+  ns_vars = roles.assigned_from(ff, lambda e: (isinstance(e, ast.Call) and
+                                               unparse(e.func).endswith(
+                                                   'Namespace')) or
+                                (isinstance(e, ast.Attribute) and
+                                 e.attr == 'namespace'))
   for tbl in sorted(ref_tables):
     ok = False
     for n in walk_function(ff.node):
       if isinstance(n, ast.Assign) and unparse(n.targets[0]) == tbl:
-        ok = 'namespace.get_new_name' in unparse(n.value)
+        ok = any(isinstance(c, ast.Call) and isinstance(
+            c.func, ast.Attribute) and c.func.attr == 'get_new_name' and
+                 unparse(c.func.value) in ns_vars for c in ast.walk(n.value))
     rs.check(ok, rule, f'{ff.qualname}:{tbl}',
              f'{tbl} is filled from namespace.get_new_name(...)',
              ctx.loc(ff, ff.node))
-  ok = sum(1 for c in ctx.calls(ff) if unparse(c.func) == 'namespace.add') >= 2
+  ok = sum(1 for c in ctx.calls(ff) if isinstance(c.func, ast.Attribute) and
+           c.func.attr == 'add' and unparse(c.func.value) in ns_vars) >= 2
   rs.check(ok, rule, f'{ff.qualname}:reserved',
            'the parameter and function names are reserved in the namespace',
            ctx.loc(ff, ff.node))
